@@ -18,7 +18,7 @@ def bd(kind, val, reasons=(), cron="-", dur=-1, mal="-", txt="-"):
 SCENARIOS = {
     # the configuration the closed model is checked with (BudgetRounds.tla MC_*): hourly window [3h, 3h+10m)
     "S1": {
-        "pools": {"pa": [bd("pct", 50), bd("count", 0, ("Empty", "Underutilized"), cron="0 * * * *", dur=600),
+        "pools": {"pa": [bd("pct", 50), bd("count", 0, ("Empty",), cron="0 * * * *", dur=600),
                          bd("count", 1, ("Drifted",))],
                   "pb": [bd("count", 1)]},
         "poolOf": ["pa", "pa", "pa", "pb"], "kindOf": ["empty", "empty", "drifted", "empty"],
